@@ -41,6 +41,7 @@ for _p in range(1, 21):
     ROUND1["R3-%s-1" % _k] = ("caught", "")
     ROUND1["R4-%s-1" % _k] = ("caught", "")
     ROUND1["R5-%s-1" % _k] = ("caught", "")
+    ROUND1["R6-%s-1" % _k] = ("caught", "")
 ROUND1.update({
  # third batch: first evaluated against the redesigned checker of DESIGN §10
  "R3-C07-1": ("missed", ""), "R3-C08-1": ("missed", ""), "R3-C09-1": ("missed", ""),
@@ -131,8 +132,18 @@ STRENGTHENED.update({
  "R2-C09-1": "new C09.R10: with a single standard parallel the cone constant of every conic (the coefficient of the longitude in the polar angle of the forward easting) is, as a term, the sine of the stored parallel",
  "R2-C08-1": "new C08.R7: for the projections whose longitude has a closed form, inverse∘forward of the longitude evaluated on the forward member's own terms must be the identity",
 })
+STRENGTHENED.update({
+ "R6-C01-1": "premise rule C01.R6 (also C03.R6, C14.R6): C04's model of Len/Bounds/Points is re-established under every property whose shortcuts and pre-filters stand on Bounds()",
+ "R6-C03-1": "premise rule C03.R6 (as R6-C01-1)",
+ "R6-C14-1": "premise rule C14.R6 (as R6-C01-1)",
+ "R6-C09-1": "premise rule C09.R13 (also C08.R8, C10.R5): C20's models of SR.Equal and of NewTransform's identity shortcut are re-established under every property that transforms between references",
+ "R6-C10-1": "premise rule C10.R5 (as R6-C09-1)",
+ "R6-C04-1": "C04 model: a *Bounds as the first, last and nested member of a collection, and every call must leave the geometry it is called on as it was",
+ "R6-C08-1": "pipeline model (C08.R2 / C09.R8): references whose axis order names the axes the other way round, with none, the first or the second reversed — position by position as proj4js 2.3.12 reads them",
+ "R6-C12-1": "C11 model (premise C12.R5): a history of points in a column and a row, whose envelopes have no area, with a delete at the far end of the column",
+ "R4-C19-1": "premise rule C19.R6: C12's nearest-neighbour models are re-established under C19, whose routes start and end at the nodes the index returns",
+})
 NOT_CAUGHT = {
- "R4-C19-1": "not reported by C19's own check (reported by C12.R4, scale invariance of the nearest-neighbour queries): C19's model network has six nodes, so the node R-tree is a single leaf and the changed pruning never runs",
  "R2-C08-2": "still missed: spherical transverse Mercator takes the hemisphere from sign(y) instead of from the foot-point latitude — formula-level",
 }
 
@@ -191,10 +202,12 @@ def main():
         r3 = [m for m in rows if m['id'].startswith('R3-')]
         r4 = [m for m in rows if m['id'].startswith('R4-')]
         r5 = [m for m in rows if m['id'].startswith('R5-')]
+        r6 = [m for m in rows if m['id'].startswith('R6-')]
         for nm, rr in (("first batch", r1), ("second batch (written after the first round of strengthening, so it measures generalisation)", r2),
                        ("third batch (one per property, first evaluated against the redesigned checker of DESIGN §10)", r3),
                        ("fourth batch (one per property, 'not the first idea that comes to mind'; first evaluated against the checker of DESIGN §11)", r4),
-                       ("fifth batch (one per property, 'a well-meant improvement whose author did not think of an unusual but legal input'; first evaluated after the BN4 corrections, DESIGN §11.7)", r5)):
+                       ("fifth batch (one per property, 'a well-meant improvement whose author did not think of an unusual but legal input'; first evaluated after the BN4 corrections, DESIGN §11.7)", r5),
+                       ("sixth batch (one per property, 'in a helper or a caller: the break comes from the interplay of two places'; first evaluated after the mechanical audits, DESIGN §11.11)", r6)):
             a1 = sum(1 for m in rr if m['first_evaluation']['verdict'].startswith('caught'))
             a2 = sum(1 for m in rr if m['current']['verdict'] == 'caught')
             f.write(f"\n{nm}: first evaluation {a1}/{len(rr)} reported, now {a2}/{len(rr)}.\n")
